@@ -275,6 +275,7 @@ def execute(run):
         return ctx.result()
     subject = type(model).__module__ + '.' + type(model).__name__ + '.sample'
     tb = '%+.1f' % (round(float(model.tau) * 5) / 5.0)
+    after_refusal = False
     for i, op in enumerate(run['ops']):
         ctx.op_index = i
         ctx.stats['ops'] += 1
@@ -297,13 +298,14 @@ def execute(run):
             X = zoo.gen_data(op['data'])
             o = outcome(model.fit, X)
             ctx.probes['refit_on_refused_data:' + outcome_class(o)] += 1
+            after_refusal = True           # from here on the object may refuse to sample
             ctx.event('refit_refused', outcome_class(o))
             if model.theta is None or model.tau is None:
                 break
         elif op['op'] == 'burst':
             for _ in range(op['k']):
                 proto = _check_call(ctx, run, model, fam, op['n'], subject,
-                                    run.get('how') == 'param_numpy')
+                                    run.get('how') == 'param_numpy' or after_refusal)
                 if proto in ('raised', 'badshape', 'badrange', 'refused') or ctx.violations:
                     break
             ctx.nontrivial = True
@@ -311,7 +313,8 @@ def execute(run):
             ctx.event('burst', op['k'], op['n'], proto, state_digest())
         elif op['op'] == 'sample':
             n = op['n']
-            proto = _check_call(ctx, run, model, fam, n, subject, op.get('may_refuse', False))
+            proto = _check_call(ctx, run, model, fam, n, subject,
+                                op.get('may_refuse', False) or after_refusal)
             ctx.nontrivial = True
             ncls = '1' if n == 1 else ('small' if n < 2000 else 'band')
             if n == 1:
